@@ -148,6 +148,12 @@ def _rounds(case, v, lines, exp):
     a, b = lines[:i], lines[i:]
     ta, tb = D.render(a), D.render(b)
     ea, eb = D.expected(a), D.expected(b)
+    if '"""' not in tb and len(ta) % 3:
+        # the second text as a whole stands further to the right (a text pasted from an indented listing): its lines are
+        # placed relative to each other only, not to whatever the text before it left open
+        sh = " " * (3 * (len(ta) % 3))
+        tb = "\n".join(sh + ln if ln.strip() else ln for ln in tb.split("\n"))
+        v.label("second_text_shifted_to_the_right")
     try:
         with DIP(name=f"c13_{next(_uid)}") as p:
             p.add_string(ta)
